@@ -886,10 +886,6 @@ func (g *Gen) frameCheck(st *State, env *Env) {
 			continue
 		}
 		g.flatCells(v.GoT, v.Addr, func(k, l string) { modLocs[k] = append(modLocs[k], l) })
-		if v.GoT != nil && isByteLike(v.GoT) {
-			p := v.Addr
-			wins = append(wins, window{arr: "(mkloc (l_obj " + p + ") (p_ebase (l_path " + p + ")))", off: "(p_i (l_path " + p + "))", n: "1", guard: "((_ is pelm) (l_path " + p + "))"})
-		}
 	}
 	var kinds []string
 	for k := range st.H {
